@@ -358,15 +358,53 @@ func c28Alnum(c byte) bool {
 	return (c >= '0' && c <= '9') || (c >= 'a' && c <= 'z') || (c >= 'A' && c <= 'Z')
 }
 
-// c28Positions: thorough = every offset, quick = the structural ones
-func c28Positions(b []byte, thorough bool) []int {
+// c28Density says how much of a class is concretised.
+type c28Density struct {
+	Dense     bool   // every offset of the valid body (thorough tier, base combination, body in the declared encoding)
+	DenseEnc  string // the encoding Dense applies to
+	Positions int    // otherwise: this many structural positions ...
+	Members   int    // ... and at most this many members of an enumerated class per encoding (0 = all)
+	Seed      int    // shifts which positions / members are taken
+}
+
+// c28Pick takes n of the k items 0..k-1, evenly spread, shifted by seed.
+func c28Pick(k, n, seed int) []int {
+	if n <= 0 || k <= n {
+		out := make([]int, k)
+		for i := range out {
+			out[i] = i
+		}
+		return out
+	}
+	out := make([]int, 0, n)
+	stride := k / n
+	shift := 0
+	if stride > 0 {
+		shift = seed % stride
+	}
+	for i := 0; i < n; i++ {
+		out = append(out, i*k/n+shift)
+	}
+	return out
+}
+
+// c28Positions: dense = every offset; otherwise d.Positions structural ones (first and last always)
+func c28Positions(b []byte, enc string, d c28Density) []int {
 	var out []int
+	dense := d.Dense && enc == d.DenseEnc
 	for i := range b {
-		if thorough || !c28Alnum(b[i]) {
+		if dense || !c28Alnum(b[i]) {
 			out = append(out, i)
 		}
 	}
-	return out
+	if dense || len(out) <= d.Positions {
+		return out
+	}
+	picked := []int{out[0]}
+	for _, i := range c28Pick(len(out)-2, d.Positions-2, d.Seed) {
+		picked = append(picked, out[1+i])
+	}
+	return append(picked, out[len(out)-1])
 }
 
 // --- protobuf fragments ------------------------------------------------------------
@@ -425,16 +463,42 @@ func c28PItem(fam string, extra ...[]byte) []byte {
 }
 
 // nested AnyValue: depth levels of array_value (5) or kvlist_value (6) around a string
+// (built outside-in from the sizes, so that it is linear in the depth)
 func c28PDeepAny(depth int, kv bool) []byte {
-	cur := c28PAnyString("x")
-	for i := 0; i < depth; i++ {
-		if kv {
-			cur = c28PBytes(6, c28PBytes(1, c28PKeyValue("k", cur)))
-		} else {
-			cur = c28PBytes(5, c28PBytes(1, cur))
+	core := c28PAnyString("x")
+	hdr := func(num, n int) []byte {
+		return protowire.AppendVarint(protowire.AppendTag(nil, protowire.Number(num), protowire.BytesType), uint64(n))
+	}
+	key := c28PBytes(1, []byte("k"))
+	// size[i] = size of the AnyValue at nesting level i (0 = the core)
+	size := make([]int, depth+1)
+	size[0] = len(core)
+	for i := 1; i <= depth; i++ {
+		if kv { // AnyValue{6: KeyValueList{1: KeyValue{1: "k", 2: inner}}}
+			kvSize := len(key) + len(hdr(2, size[i-1])) + size[i-1]
+			listSize := len(hdr(1, kvSize)) + kvSize
+			size[i] = len(hdr(6, listSize)) + listSize
+		} else { // AnyValue{5: ArrayValue{1: inner}}
+			arrSize := len(hdr(1, size[i-1])) + size[i-1]
+			size[i] = len(hdr(5, arrSize)) + arrSize
 		}
 	}
-	return cur
+	out := make([]byte, 0, size[depth])
+	for i := depth; i >= 1; i-- {
+		if kv {
+			kvSize := len(key) + len(hdr(2, size[i-1])) + size[i-1]
+			listSize := len(hdr(1, kvSize)) + kvSize
+			out = append(out, hdr(6, listSize)...)
+			out = append(out, hdr(1, kvSize)...)
+			out = append(out, key...)
+			out = append(out, hdr(2, size[i-1])...)
+		} else {
+			arrSize := len(hdr(1, size[i-1])) + size[i-1]
+			out = append(out, hdr(5, arrSize)...)
+			out = append(out, hdr(1, size[i-1])...)
+		}
+	}
+	return append(out, core...)
 }
 
 // --- the classes -----------------------------------------------------------------------
@@ -443,66 +507,81 @@ func c28Depths(thorough bool) []int {
 	if thorough {
 		return []int{64, 1000, 20000, 1000000}
 	}
-	return []int{64, 1000, 20000}
+	return []int{64, 3000}
 }
 
 func c28Repeat(s string, n int) []byte { return bytes.Repeat([]byte(s), n) }
 
 // c28Bodies returns the concrete bodies of class shape for document family
 // fam (event | batch | otlp-traces | otlp-logs).
-func c28Bodies(fam, shape string, thorough bool) []c28Body {
+func c28Bodies(fam, shape string, thorough bool, d c28Density) []c28Body {
+	var out []c28Body
+	for _, enc := range c28Encodings(fam) {
+		out = append(out, c28BodiesEnc(fam, shape, enc, thorough, d)...)
+	}
+	return out
+}
+
+func c28BodiesEnc(fam, shape, enc string, thorough bool, d c28Density) []c28Body {
 	var out []c28Body
 	add := func(enc, label string, data []byte) { out = append(out, c28Body{Enc: enc, Label: label, Data: data}) }
-	for _, enc := range c28Encodings(fam) {
-		valid := c28Valid(fam, enc)
-		switch shape {
-		case "valid":
-			add(enc, "valid", valid)
-		case "empty":
-			add(enc, "zero-bytes", nil)
-			switch enc {
-			case "json":
-				add(enc, "null", []byte("null"))
-				add(enc, "blank", []byte(" \n\t"))
-				add(enc, "empty-object", []byte("{}"))
-				add(enc, "empty-array", []byte("[]"))
-			case "msgpack":
-				add(enc, "nil", []byte{0xc0})
-				add(enc, "empty-map", []byte{0x80})
-				add(enc, "empty-array", []byte{0x90})
-			case "protobuf":
-				add(enc, "empty-resource", c28PBytes(1, nil))
+	full := d.Members == 0 // the base combination gets the expensive members too
+	valid := c28Valid(fam, enc)
+	switch shape {
+	case "valid":
+		add(enc, "valid", valid)
+	case "empty":
+		add(enc, "zero-bytes", nil)
+		switch enc {
+		case "json":
+			add(enc, "null", []byte("null"))
+			add(enc, "blank", []byte(" \n\t"))
+			add(enc, "empty-object", []byte("{}"))
+			add(enc, "empty-array", []byte("[]"))
+		case "msgpack":
+			add(enc, "nil", []byte{0xc0})
+			add(enc, "empty-map", []byte{0x80})
+			add(enc, "empty-array", []byte{0x90})
+		case "protobuf":
+			add(enc, "empty-resource", c28PBytes(1, nil))
+		}
+	case "truncated":
+		for _, p := range c28Positions(valid, enc, d) {
+			add(enc, fmt.Sprintf("prefix[:%d]", p), valid[:p])
+			if p+1 < len(valid) {
+				add(enc, fmt.Sprintf("prefix[:%d]", p+1), valid[:p+1])
 			}
-		case "truncated":
-			for _, p := range c28Positions(valid, thorough) {
-				add(enc, fmt.Sprintf("prefix[:%d]", p), valid[:p])
-				if p+1 < len(valid) {
-					add(enc, fmt.Sprintf("prefix[:%d]", p+1), valid[:p+1])
+		}
+	case "subst":
+		for _, p := range c28Positions(valid, enc, d) {
+			subs := []byte{0x00, 0xff, valid[p] + 1}
+			if d.Dense && enc == d.DenseEnc && !c28Alnum(valid[p]) {
+				subs = []byte{0x00, 0xff, valid[p] + 1, valid[p] - 1, 0xc1, 0x80, '"', '[', '{'}
+			}
+			seen := map[byte]bool{valid[p]: true}
+			for _, s := range subs {
+				if seen[s] {
+					continue
 				}
+				seen[s] = true
+				m := append([]byte(nil), valid...)
+				m[p] = s
+				add(enc, fmt.Sprintf("byte[%d]=0x%02x", p, s), m)
 			}
-		case "subst":
-			for _, p := range c28Positions(valid, thorough) {
-				subs := []byte{0x00, 0xff, valid[p] + 1}
-				if thorough {
-					subs = []byte{0x00, 0xff, valid[p] + 1, valid[p] - 1, 0xc1, 0x80, '"', '[', '{'}
-				}
-				seen := map[byte]bool{valid[p]: true}
-				for _, s := range subs {
-					if seen[s] {
-						continue
-					}
-					seen[s] = true
-					m := append([]byte(nil), valid...)
-					m[p] = s
-					add(enc, fmt.Sprintf("byte[%d]=0x%02x", p, s), m)
-				}
+		}
+	default:
+		if fam == "event" || fam == "batch" {
+			c28DocClass(fam, enc, shape, thorough, full, add)
+		} else {
+			c28OTLPClass(fam, enc, shape, thorough, full, add)
+		}
+		// away from the base combination only a seed-shifted sample of an enumerated class is sent
+		if shape != "lenbomb" && d.Members > 0 && len(out) > d.Members {
+			var kept []c28Body
+			for _, i := range c28Pick(len(out), d.Members, d.Seed) {
+				kept = append(kept, out[i])
 			}
-		default:
-			if fam == "event" || fam == "batch" {
-				c28DocClass(fam, enc, shape, thorough, add)
-			} else {
-				c28OTLPClass(fam, enc, shape, thorough, add)
-			}
+			return kept
 		}
 	}
 	return out
@@ -517,7 +596,11 @@ func c28Wrap(fam string, data any, extra ...c28KV) any {
 	return []any{append(w, extra...)}
 }
 
-func c28DocClass(fam, enc, shape string, thorough bool, add func(enc, label string, data []byte)) {
+func c28DocClass(fam, enc, shape string, thorough, full bool, add func(enc, label string, data []byte)) {
+	longLen := 1 << 16
+	if thorough {
+		longLen = 1 << 20
+	}
 	doc := func(label string, v any) { add(enc, label, c28Encode(enc, v)) }
 	raw := func(label string, b []byte) { add(enc, label, b) }
 	f := c28Fields(1)
@@ -564,12 +647,12 @@ func c28DocClass(fam, enc, shape string, thorough bool, add func(enc, label stri
 		}
 	case "hugelen":
 		if enc == "msgpack" {
+			// (the 32-bit element counts are a class of their own: lenbomb)
 			hdrs := map[string][]byte{
-				"map32-max": {0xdf, 0xff, 0xff, 0xff, 0xff}, "array32-max": {0xdd, 0xff, 0xff, 0xff, 0xff}, "str32-max": {0xdb, 0xff, 0xff, 0xff, 0xff},
-				"bin32-max": {0xc6, 0xff, 0xff, 0xff, 0xff}, "ext32-max": {0xc9, 0xff, 0xff, 0xff, 0xff, 0x01}, "map16-max": {0xde, 0xff, 0xff},
-				"array16-max": {0xdc, 0xff, 0xff}, "str16-max": {0xda, 0xff, 0xff}, "str8-max": {0xd9, 0xff}, "array32-2^31": {0xdd, 0x80, 0, 0, 0}, "map32-2^31": {0xdf, 0x80, 0, 0, 0},
+				"str32-max": {0xdb, 0xff, 0xff, 0xff, 0xff}, "bin32-max": {0xc6, 0xff, 0xff, 0xff, 0xff}, "ext32-max": {0xc9, 0xff, 0xff, 0xff, 0xff, 0x01},
+				"map16-max": {0xde, 0xff, 0xff}, "array16-max": {0xdc, 0xff, 0xff}, "str16-max": {0xda, 0xff, 0xff}, "str8-max": {0xd9, 0xff},
 			}
-			for _, name := range []string{"map32-max", "array32-max", "str32-max", "bin32-max", "ext32-max", "map16-max", "array16-max", "str16-max", "str8-max", "array32-2^31", "map32-2^31"} {
+			for _, name := range []string{"str32-max", "bin32-max", "ext32-max", "map16-max", "array16-max", "str16-max", "str8-max"} {
 				h := hdrs[name]
 				frag := c28Raw{Msgp: append(append([]byte(nil), h...), 0xa1, 'x', 0x01)}
 				raw("top-"+name, frag.Msgp)
@@ -584,31 +667,50 @@ func c28DocClass(fam, enc, shape string, thorough bool, add func(enc, label stri
 				}
 			}
 		} else {
-			long := strings.Repeat("a", 1<<20)
+			long := strings.Repeat("a", longLen)
 			doc("long-value", c28Wrap(fam, c28Set(f, "svc", long)))
 			doc("long-key", c28Wrap(fam, c28With(f, c28KV{long, int64(1)})))
 			doc("long-traceid", c28Wrap(fam, c28Set(f, "trace.trace_id", long)))
-			doc("long-number", c28Wrap(fam, c28Set(f, "dur", c28Raw{JSON: c28Repeat("9", 100000)})))
+			doc("long-number", c28Wrap(fam, c28Set(f, "dur", c28Raw{JSON: c28Repeat("9", longLen/8)})))
 			doc("long-exponent", c28Wrap(fam, c28Set(f, "dur", c28Raw{JSON: []byte("1e" + strings.Repeat("9", 1000))})))
-			doc("many-fields", c28Wrap(fam, func() c28Map {
-				m := c28Fields(1)
-				for i := 0; i < 70000; i++ {
-					m = append(m, c28KV{fmt.Sprintf("f%d", i), int64(i)})
-				}
-				return m
-			}()))
-			pad := c28Repeat(" ", HTTPMessageSizeMax)
-			raw("over-the-size-limit", append(pad, c28Encode(enc, c28Wrap(fam, f))...))
-			raw("at-the-size-limit", append(pad[:HTTPMessageSizeMax-len(c28Encode(enc, c28Wrap(fam, f)))], c28Encode(enc, c28Wrap(fam, f))...))
+			if full {
+				pad := c28Repeat(" ", HTTPMessageSizeMax)
+				one := c28Encode(enc, c28Wrap(fam, f))
+				raw("over-the-size-limit", append(append([]byte(nil), pad...), one...))
+				raw("at-the-size-limit", append(append([]byte(nil), pad[:HTTPMessageSizeMax-len(one)]...), one...))
+			}
 		}
-		if enc == "msgpack" {
+		if full && thorough {
 			m := c28Fields(1)
-			for i := 0; i < 70000; i++ {
+			for i := 0; i < 70000; i++ { // more fields than a msgpack map16 holds
 				m = append(m, c28KV{fmt.Sprintf("f%d", i), int64(i)})
 			}
 			doc("many-fields", c28Wrap(fam, m))
-			big := c28Encode(enc, c28Wrap(fam, c28Set(f, "svc", strings.Repeat("a", HTTPMessageSizeMax))))
-			raw("over-the-size-limit", big)
+		}
+		if full && enc == "msgpack" {
+			raw("over-the-size-limit", c28Encode(enc, c28Wrap(fam, c28Set(f, "svc", strings.Repeat("a", HTTPMessageSizeMax)))))
+		}
+	case "lenbomb":
+		// counts a decoder may allocate from before it has seen the elements
+		if enc != "msgpack" {
+			return
+		}
+		for _, h := range []struct {
+			name string
+			b    []byte
+		}{{"array32-65535", []byte{0xdd, 0, 0, 0xff, 0xff}}, {"map32-65535", []byte{0xdf, 0, 0, 0xff, 0xff}},
+			{"array32-max", []byte{0xdd, 0xff, 0xff, 0xff, 0xff}}, {"array32-2^31", []byte{0xdd, 0x80, 0, 0, 0}},
+			{"map32-max", []byte{0xdf, 0xff, 0xff, 0xff, 0xff}}, {"map32-2^31", []byte{0xdf, 0x80, 0, 0, 0}}} {
+			frag := c28Raw{Msgp: append(append([]byte(nil), h.b...), 0xa1, 'x', 0x01)}
+			raw("top-"+h.name, frag.Msgp)
+			doc("field-"+h.name, c28Wrap(fam, c28Set(f, "nest", frag)))
+			doc("keyfield-"+h.name, c28Wrap(fam, c28Set(f, "svc", frag)))
+			doc("traceid-"+h.name, c28Wrap(fam, c28Set(f, "trace.trace_id", frag)))
+			if fam == "batch" {
+				doc("data-"+h.name, []any{c28Map{{"data", frag}}})
+				doc("time-"+h.name, []any{c28Map{{"time", frag}, {"data", f}}})
+				doc("other-"+h.name, []any{c28Map{{"other", frag}, {"data", f}}})
+			}
 		}
 	case "dupkeys":
 		doc("dup-field", c28Wrap(fam, c28With(f, c28KV{"svc", "other"}, c28KV{"svc", int64(3)})))
@@ -704,7 +806,11 @@ func c28DocClass(fam, enc, shape string, thorough bool, add func(enc, label stri
 	}
 }
 
-func c28OTLPClass(fam, enc, shape string, thorough bool, add func(enc, label string, data []byte)) {
+func c28OTLPClass(fam, enc, shape string, thorough, full bool, add func(enc, label string, data []byte)) {
+	longLen := 1 << 16
+	if thorough {
+		longLen = 1 << 20
+	}
 	raw := func(label string, b []byte) { add(enc, label, b) }
 	attr := c28PAttrNum(fam)
 	listKey := "resourceSpans"
@@ -750,9 +856,9 @@ func c28OTLPClass(fam, enc, shape string, thorough bool, add func(enc, label str
 			raw("protobuf-as-json", c28OTLPValid(fam, "protobuf"))
 		}
 	case "deep":
-		depths := []int{50, 98, 101, 200, 5000}
+		depths := []int{50, 101, 3000}
 		if thorough {
-			depths = append(depths, 20000, 200000)
+			depths = []int{50, 98, 101, 200, 5000, 20000, 200000}
 		}
 		for _, d := range depths {
 			if enc == "protobuf" {
@@ -785,16 +891,18 @@ func c28OTLPClass(fam, enc, shape string, thorough bool, add func(enc, label str
 			}
 			raw("varint-11-bytes", c28PCat(protowire.AppendTag(nil, 1, protowire.BytesType), bytes.Repeat([]byte{0xff}, 11)))
 			raw("tag-11-bytes", bytes.Repeat([]byte{0xff}, 11))
-			raw("long-name", c28PRequest(fam, c28PItem(fam, c28PBytes(5, c28Repeat("a", 1<<20)))))
-			many := [][]byte{}
-			for i := 0; i < 20000; i++ {
-				many = append(many, c28PBytes(attr, c28PKeyValue(fmt.Sprintf("f%d", i), c28PAnyString("v"))))
+			raw("long-name", c28PRequest(fam, c28PItem(fam, c28PBytes(5, c28Repeat("a", longLen)))))
+			if full && thorough {
+				many := [][]byte{}
+				for i := 0; i < 70000; i++ {
+					many = append(many, c28PBytes(attr, c28PKeyValue(fmt.Sprintf("f%d", i), c28PAnyString("v"))))
+				}
+				raw("many-attributes", c28PRequest(fam, c28PItem(fam, many...)))
 			}
-			raw("many-attributes", c28PRequest(fam, c28PItem(fam, many...)))
 		} else {
-			raw("long-name", jsonReq(jsonItem(`,"attributes":[{"key":"svc","value":{"stringValue":"`+strings.Repeat("a", 1<<20)+`"}}]`)))
-			raw("long-number", jsonReq(jsonItem(`,"attributes":[{"key":"dur","value":{"intValue":`+strings.Repeat("9", 100000)+`}}]`)))
-			raw("long-traceid", jsonReq(strings.Replace(jsonItem(""), "c28a0102030405060708090a0b0c0d0", strings.Repeat("ab", 1<<16), 1)))
+			raw("long-name", jsonReq(jsonItem(`,"attributes":[{"key":"svc","value":{"stringValue":"`+strings.Repeat("a", longLen)+`"}}]`)))
+			raw("long-number", jsonReq(jsonItem(`,"attributes":[{"key":"dur","value":{"intValue":`+strings.Repeat("9", longLen/8)+`}}]`)))
+			raw("long-traceid", jsonReq(strings.Replace(jsonItem(""), "c28a0102030405060708090a0b0c0d0", strings.Repeat("ab", longLen/16), 1)))
 		}
 	case "dupkeys":
 		if enc == "protobuf" {
